@@ -101,6 +101,15 @@ pub trait Prop: Sync {
     fn exhaustive(&self) -> bool {
         false
     }
+    /// a worker that produces no output for this long while inside a run is killed
+    fn hang_timeout_s(&self) -> u64 {
+        600
+    }
+    /// a run that hangs or kills its worker process is a violation of the property (C09, C11) rather
+    /// than a harness error; it is confirmed by re-running the case alone before it is reported
+    fn lost_run_is_violation(&self) -> bool {
+        false
+    }
     /// a run that does not replay to the same transcript in a second OS process is a violation of the
     /// property itself (C02) rather than a harness error
     fn nondeterminism_is_violation(&self) -> bool {
@@ -242,16 +251,62 @@ fn run_line(i: u64, seed: u64, out: &RunOut, case: Option<&Value>) -> Value {
     })
 }
 
+pub fn read_marker(pid: u32) -> Value {
+    std::fs::read_to_string(format!("/dev/shm/brc20-verif-{}/current", pid))
+        .ok()
+        .and_then(|s| serde_json::from_str(&s).ok())
+        .unwrap_or(Value::Null)
+}
+
+pub enum ChildOutcome {
+    Finished(i32),
+    TimedOut,
+    Died,
+}
+
+pub fn run_with_timeout(exe: &std::path::Path, args: &[&str], timeout: Duration) -> ChildOutcome {
+    let Ok(mut c) = Command::new(exe).args(args).stdout(Stdio::null()).stderr(Stdio::null()).spawn() else {
+        return ChildOutcome::Died;
+    };
+    let t0 = Instant::now();
+    loop {
+        match c.try_wait() {
+            Ok(Some(st)) => {
+                let _ = std::fs::remove_dir_all(format!("/dev/shm/brc20-verif-{}", c.id()));
+                return match st.code() {
+                    Some(code) => ChildOutcome::Finished(code),
+                    None => ChildOutcome::Died,
+                };
+            }
+            Ok(None) => {
+                if t0.elapsed() > timeout {
+                    let _ = c.kill();
+                    let _ = c.wait();
+                    let _ = std::fs::remove_dir_all(format!("/dev/shm/brc20-verif-{}", c.id()));
+                    return ChildOutcome::TimedOut;
+                }
+                std::thread::sleep(Duration::from_millis(100));
+            }
+            Err(_) => return ChildOutcome::Died,
+        }
+    }
+}
+
 /// `sim worker <id> <tier> <root> <rank> <nworkers> <n> <budget_s>`
-pub fn worker_main(p: &dyn Prop, tier: Tier, root: u64, rank: u64, nworkers: u64, n: u64, budget_s: u64) {
+pub fn worker_main(p: &dyn Prop, tier: Tier, root: u64, rank: u64, nworkers: u64, n: u64, budget_s: u64, first: u64) {
     let t0 = Instant::now();
     let stdout = std::io::stdout();
-    let mut i = rank;
+    let mut i = first.max(rank);
     while i < n {
         if t0.elapsed().as_secs() > budget_s {
             break;
         }
         let seed = run_seed(root, p.id(), i);
+        {
+            let mut h = stdout.lock();
+            let _ = writeln!(h, "{}", json!({"start": i}));
+            let _ = h.flush();
+        }
         let case = p.generate(seed, tier);
         let out = p.execute(&case);
         // cases are shipped for samples (first runs) and for violations
@@ -278,9 +333,8 @@ pub fn check_main(p: &dyn Prop, tier: Tier) -> i32 {
     let budget = p.budget_s(tier);
     println!("[{}] tier={} seed={} runs={} workers={} budget={}s", p.id(), tier.name(), root, n, nworkers, budget);
     let exe = std::env::current_exe().expect("exe");
-    let mut children = vec![];
-    for rank in 0..nworkers {
-        let child = Command::new(&exe)
+    let spawn_worker = |rank: u64, first: u64, budget_left: u64| -> std::process::Child {
+        Command::new(&exe)
             .args([
                 "worker",
                 p.id(),
@@ -289,43 +343,139 @@ pub fn check_main(p: &dyn Prop, tier: Tier) -> i32 {
                 &rank.to_string(),
                 &nworkers.to_string(),
                 &n.to_string(),
-                &budget.to_string(),
+                &budget_left.to_string(),
+                &first.to_string(),
             ])
             .stdout(Stdio::piped())
             .stderr(Stdio::inherit())
             .spawn()
-            .expect("spawn worker");
-        children.push(child);
+            .expect("spawn worker")
+    };
+    let mut children = vec![];
+    for rank in 0..nworkers {
+        children.push(spawn_worker(rank, rank, budget));
     }
     let mut lines: BTreeMap<u64, Value> = BTreeMap::new();
-    let mut handles = vec![];
-    for mut c in children {
-        handles.push(std::thread::spawn(move || {
-            let mut got = vec![];
-            if let Some(so) = c.stdout.take() {
+    // events from the workers: (rank, generation, Some(line)) per output line, (.., None) at end of stream
+    let (txe, rxe) = std::sync::mpsc::channel::<(usize, u32, Option<Value>)>();
+    let attach = |rank: usize, generation: u32, c: &mut std::process::Child, txe: std::sync::mpsc::Sender<(usize, u32, Option<Value>)>| {
+        let so = c.stdout.take();
+        std::thread::spawn(move || {
+            if let Some(so) = so {
                 for l in BufReader::new(so).lines().map_while(Result::ok) {
                     if let Ok(v) = serde_json::from_str::<Value>(&l) {
-                        got.push(v);
+                        let _ = txe.send((rank, generation, Some(v)));
                     }
                 }
             }
-            let status = c.wait().ok();
-            (got, status)
-        }));
+            let _ = txe.send((rank, generation, None));
+        });
+    };
+    let mut procs: Vec<std::process::Child> = vec![];
+    for (rank, mut c) in children.into_iter().enumerate() {
+        attach(rank, 0, &mut c, txe.clone());
+        procs.push(c);
     }
-    let mut worker_failures = 0;
-    for h in handles {
-        let (got, status) = h.join().expect("join");
-        if !status.map(|s| s.success()).unwrap_or(false) {
-            worker_failures += 1;
+    let hang_timeout = Duration::from_secs(p.hang_timeout_s());
+    let mut generation: Vec<u32> = vec![0; procs.len()];
+    let mut current: Vec<Option<u64>> = vec![None; procs.len()];
+    let mut last_seen: Vec<Instant> = vec![Instant::now(); procs.len()];
+    let mut done: Vec<bool> = vec![false; procs.len()];
+    // runs that never returned: (run index, kind, detail)
+    let mut lost: Vec<(u64, &'static str, Value)> = vec![];
+    // a lost worker is replaced by one that continues after the lost run
+    macro_rules! respawn {
+        ($rank:expr, $after:expr) => {{
+            let elapsed = t0.elapsed().as_secs();
+            if lost.len() < 8 && elapsed < budget {
+                let mut c = spawn_worker($rank as u64, $after + nworkers, budget - elapsed);
+                generation[$rank] += 1;
+                attach($rank, generation[$rank], &mut c, txe.clone());
+                procs[$rank] = c;
+                current[$rank] = None;
+                last_seen[$rank] = Instant::now();
+                done[$rank] = false;
+            }
+        }};
+    }
+    while done.iter().any(|d| !*d) {
+        match rxe.recv_timeout(Duration::from_millis(500)) {
+            Ok((rank, g, _)) if g != generation[rank] => {}
+            Ok((rank, _, Some(v))) => {
+                last_seen[rank] = Instant::now();
+                if let Some(i) = v.get("start").and_then(|x| x.as_u64()) {
+                    current[rank] = Some(i);
+                } else {
+                    current[rank] = None;
+                    lines.insert(v["i"].as_u64().unwrap_or(0), v);
+                }
+            }
+            Ok((rank, _, None)) => {
+                if done[rank] {
+                    continue;
+                }
+                done[rank] = true;
+                let status = procs[rank].wait().ok();
+                if !status.map(|s| s.success()).unwrap_or(false) {
+                    let _ = std::fs::remove_dir_all(format!("/dev/shm/brc20-verif-{}", procs[rank].id()));
+                    if let Some(i) = current[rank] {
+                        let marker = read_marker(procs[rank].id());
+                        lost.push((i, "process-died", json!({"exit": format!("{:?}", status), "last_request": marker})));
+                        respawn!(rank, i);
+                    } else {
+                        lost.push((u64::MAX, "worker-exit", json!({"exit": format!("{:?}", status)})));
+                    }
+                }
+            }
+            Err(std::sync::mpsc::RecvTimeoutError::Timeout) => {}
+            Err(std::sync::mpsc::RecvTimeoutError::Disconnected) => break,
         }
-        for v in got {
-            lines.insert(v["i"].as_u64().unwrap_or(0), v);
+        for rank in 0..procs.len() {
+            if !done[rank] && current[rank].is_some() && last_seen[rank].elapsed() > hang_timeout {
+                let marker = read_marker(procs[rank].id());
+                let _ = procs[rank].kill();
+                let _ = procs[rank].wait();
+                done[rank] = true;
+                let i = current[rank].unwrap();
+                lost.push((i, "no-progress", json!({"seconds": hang_timeout.as_secs(), "last_request": marker})));
+                let _ = std::fs::remove_dir_all(format!("/dev/shm/brc20-verif-{}", procs[rank].id()));
+                respawn!(rank, i);
+            }
         }
     }
-    if worker_failures > 0 {
-        eprintln!("HARNESS-ERROR: {worker_failures} worker(s) exited abnormally");
-        return 2;
+    drop(txe);
+    let mut lost_violations: Vec<Value> = vec![];
+    for (n_lost, (i, kind, detail)) in lost.iter().enumerate() {
+        if n_lost >= 2 && *i != u64::MAX && p.lost_run_is_violation() {
+            eprintln!("note: run {i} was also lost ({kind}); only the first two lost runs are confirmed and reported");
+            continue;
+        }
+        if *i == u64::MAX || !p.lost_run_is_violation() {
+            eprintln!("HARNESS-ERROR: a worker was lost ({kind}): {detail}");
+            return 2;
+        }
+        let seed = run_seed(root, p.id(), *i);
+        let case = p.generate(seed, tier);
+        // confirmation: the same case alone, in a fresh process, with a timeout
+        let tmp = format!("{}/replays/{}-{}-suspect.json", verif_root(), p.id(), seed);
+        let _ = std::fs::create_dir_all(format!("{}/replays", verif_root()));
+        let class = if *kind == "no-progress" { "request-hangs" } else { "server-process-died" };
+        let viol = Violation::new(class, detail.clone());
+        let _ = std::fs::write(&tmp, serde_json::to_string_pretty(&json!({"property": p.id(), "seed": seed, "violation": viol.to_value(), "case": case})).unwrap());
+        let confirmed = run_with_timeout(&exe, &["replay-inner", &tmp], hang_timeout + Duration::from_secs(30));
+        let _ = std::fs::remove_file(&tmp);
+        match confirmed {
+            ChildOutcome::TimedOut | ChildOutcome::Died => {
+                lost_violations.push(json!({"i": i, "seed": seed, "digest": sha_hex(&case.to_string()), "nontrivial": true, "stats": {}, "sim_ms": 0,
+                    "violation": viol.to_value(), "transcript": "", "states": [], "case": case}));
+            }
+            ChildOutcome::Finished(_) => {
+                eprintln!("note: run {i} was lost ({kind}) but completed when re-run alone; not reported");
+            }
+        }
+    }
+    for v in lost_violations {
+        lines.insert(v["i"].as_u64().unwrap_or(0), v);
     }
     if lines.is_empty() {
         eprintln!("HARNESS-ERROR: no runs completed");
@@ -367,9 +517,10 @@ pub fn check_main(p: &dyn Prop, tier: Tier) -> i32 {
 
     // determinism sample: re-execute ~2% (at least 2) of the runs in this (different) process
     let total = lines.len() as u64;
-    let mut recheck: Vec<u64> = lines.keys().cloned().filter(|i| i % 50 == 0).collect();
+    let safe = |i: &u64| lines[i]["transcript"].as_str().map(|t| !t.is_empty()).unwrap_or(false);
+    let mut recheck: Vec<u64> = lines.keys().cloned().filter(|i| i % 50 == 0 && safe(i)).collect();
     if recheck.len() < 2 {
-        recheck = lines.keys().cloned().take(2).collect();
+        recheck = lines.keys().cloned().filter(|i| safe(i)).take(2).collect();
     }
     let mut nondeterministic = vec![];
     if std::env::var("VERIF_NO_RECHECK").is_err() {
@@ -446,9 +597,9 @@ pub fn check_main(p: &dyn Prop, tier: Tier) -> i32 {
         let case = if first["case"].is_null() { p.generate(seed, tier) } else { first["case"].clone() };
         let case = p.refine_case(&case, &viol);
         let budget = Duration::from_secs(if tier == Tier::Quick { 60 } else { 600 });
-        let (min_case, tries) = minimise(p, &case, &viol.class, budget);
-        let out = p.execute(&min_case);
-        let final_viol = out.violation.clone().unwrap_or(viol.clone());
+        let dangerous = viol.class == "request-hangs" || viol.class == "server-process-died";
+        let (min_case, tries) = if dangerous { (case.clone(), 0) } else { minimise(p, &case, &viol.class, budget) };
+        let final_viol = if dangerous { viol.clone() } else { p.execute(&min_case).violation.clone().unwrap_or(viol.clone()) };
         let path = format!("{}/replays/{}-{}.json", verif_root(), p.id(), seed);
         let _ = std::fs::create_dir_all(format!("{}/replays", verif_root()));
         let replay = json!({
@@ -537,7 +688,7 @@ fn write_evidence(
 }
 
 /// `sim replay <path>`: execute the explicit case in the file; exit 1 + VIOLATION if it fails the same way
-pub fn replay_main(props: &[&dyn Prop], path: &str) -> i32 {
+pub fn replay_main(props: &[&dyn Prop], path: &str, inner: bool) -> i32 {
     let Ok(s) = std::fs::read_to_string(path) else {
         eprintln!("cannot read {path}");
         return 2;
@@ -548,6 +699,30 @@ pub fn replay_main(props: &[&dyn Prop], path: &str) -> i32 {
         eprintln!("unknown property {id}");
         return 2;
     };
+    if p.lost_run_is_violation() && !inner {
+        // the case may hang or kill the process: execute it in a child with a timeout
+        let exe = std::env::current_exe().expect("exe");
+        return match run_with_timeout(&exe, &["replay-inner", path], Duration::from_secs(p.hang_timeout_s() + 30)) {
+            ChildOutcome::TimedOut => {
+                println!("replayed: the case makes no progress within {} s", p.hang_timeout_s());
+                println!("VIOLATION property={} replay={}", id, path);
+                1
+            }
+            ChildOutcome::Died => {
+                println!("replayed: the case kills the process");
+                println!("VIOLATION property={} replay={}", id, path);
+                1
+            }
+            ChildOutcome::Finished(0) => {
+                println!("replay of {path}: no violation (property holds on this case)");
+                0
+            }
+            ChildOutcome::Finished(_) => {
+                println!("VIOLATION property={} replay={}", id, path);
+                1
+            }
+        };
+    }
     let out = p.execute(&v["case"]);
     let want = v["violation"]["class"].as_str().unwrap_or("");
     match out.violation {
